@@ -63,6 +63,22 @@ CHECKS = {
             'point); persistence between runs (write_env/read_env) is C14\'s model, here the carried-over Env is passed '
             'in memory through merge_done_tasks.',
             '10 (scheduler)'),
+    'C05': ('Lean 4 proof over exact IEEE-like reals (XReal): Student t with its three conventions transcribed generically; '
+            'verdict <=> all bins, oracle <=> ratio below the critical value, symmetry, invariance under a common positive '
+            'rescaling (all special values), monotonicity in the difference and in the errors, one-sided NaN rejected, '
+            'p-value decision = oracle for any strictly decreasing survival function + bit-exact differential correspondence '
+            'with TestStudent (t, oracles, verdict, test_pvalue) incl. swapped / rescaled / perturbed evaluations',
+            'verdict_iff_all_bins, verdict_false_of_bad_bin, oracle_iff_ratio, zero_zero_passes, tStat_symm, '
+            'oracle_symmetric, scale_invariant (every XReal input, c > 0), monotone_diff, monotone_err, '
+            'one_sided_nan_value_false, one_sided_nan_error_false, pvalue_agrees (hypotheses on the law: sf strictly '
+            'decreasing on [0, inf), 2 sf(thr) = alpha; checked numerically against scipy on every case). Tied to '
+            'student.py on every run: t compared bit for bit, oracles / verdict / test_pvalue compared, and the clauses '
+            'recomputed on the implementation (swapped datasets, power-of-two rescaling, grown difference, shrunk error).',
+            'Trusted: Lean kernel + standard axioms; XReal = exact arithmetic (rounding covered by the bit-exact '
+            'comparison; 4 ulp for 0-d datasets); scipy quantile / survival functions are parameters of the model; '
+            'monotone_* are stated for finite inputs with errors not both zero (the documented 0/0 convention is not '
+            'monotone by design).',
+            '10 (C05)'),
     'C08': ('Lean 4 proof: Dataset arithmetic transcribed generically over the number type; value = plain operation, '
             'error rules (quadratic sum for + and -, relative-error form for * and / over exact reals, |c| scaling), '
             'well-formedness and non-negative errors for every finite chain by induction over the command list + '
